@@ -248,6 +248,18 @@ var arithmeticItemsBySymbol = map[string]itemType{
 	")":   itemRightParen,
 }
 
+// endsTerm returns true if an item of this type can be the last item of an
+// operand, so that a following '-' is the binary operator.
+func (t itemType) endsTerm() bool {
+	switch t {
+	case itemNull, itemBool, itemInteger, itemFloat, itemString,
+		itemIdent, itemDollarIdent, itemDotIdent, itemQuestionDotIdent,
+		itemDotIndex, itemQuestionDotIndex, itemRightBracket, itemRightParen:
+		return true
+	}
+	return false
+}
+
 // isCommandEnd returns true if this is a command closing tag.
 func (t itemType) isCommandEnd() bool {
 	return t > itemCommandEnd
@@ -630,12 +642,7 @@ func lexNegative(l *lexer) stateFn {
 	// is it unary or binary op?
 	// unary if it starts a group ('{' or '(') or an op came just before.
 	var lastType = l.lastEmit.typ
-	if lastType == itemInvalid ||
-		lastType.isOp() ||
-		lastType == itemLeftDelim ||
-		lastType == itemCase ||
-		lastType == itemComma ||
-		lastType == itemLeftParen {
+	if !lastType.endsTerm() {
 		// is it a negative number?
 		if l.peek() >= '0' && l.peek() <= '9' {
 			l.backup()
